@@ -91,3 +91,9 @@ Definition scan_fast_from (pre ops : list op) (rec : list (Z * Z)) (hs : list na
   : option (Z * Z * dumpT) * list (Z * Z * bool) * list (Z * bool * bool) :=
   let '(d, l, sf) := scan_fp (run pre) ops rec 0%Z in
   (d, l, match d with None => map (integrity3 sf) hs | Some _ => [] end).
+
+(* well-formedness clauses of a hierarchy read off real objects (bit set = clause FAILS): single driver (the source of
+   every wire is exactly the out/inout port of a block WITH BEHAVIOUR attached to it), unique children, unique wires *)
+Definition wf_bits (s : state) : Z :=
+  let b (i : Z) (ok : bool) := if ok then 0%Z else (2 ^ i)%Z in
+  (b 0 (single_driver_b s) + b 1 (unique_children_b s) + b 2 (unique_wires_b s))%Z.
